@@ -300,7 +300,8 @@ def _worker_forms_g(arg) -> Acc:
     tier, family, stats_list, lo, hi = arg
     ensure_seams()
     acc = Acc()
-    N = 4 if tier == "quick" else 5
+    # size 5 for the one-nonterminal grammars in thorough; size 4 for the larger families
+    N = 5 if (tier != "quick" and family == "one") else 4
     strategies = dg.g_strategies()
     for g in dg.grammars(family)[lo:hi]:
         for c in c09g.g_classes(g, [tuple(s) for s in stats_list]):
@@ -507,7 +508,8 @@ def spec_configs(tier: str) -> List[Any]:
     else:
         from mc.checks.common_search import CORE_PACKS
 
-        cfgs = [c for c in cfgs if c.db in ("RuleDB", "Forest") and (c.pack in CORE_PACKS or c.pack.startswith("g") or "marked" in c.pack)]
+        q = _quick_sids()
+        cfgs = [c for c in cfgs if c.sid() in q or (c.db == "RuleDB" and (c.pack in CORE_PACKS or c.pack.startswith("g") or "marked" in c.pack))]
     return cfgs
 
 
